@@ -1,9 +1,7 @@
 (** The completions of one event may be processed in the order the model emits them:
-    [sort_completions] only permutes completions of one instant (give-ups first, and each class
-    reversed), and processing two such completions in the other order gives the same tracker
-    state up to the order of the hold list; the only check whose outcome can get worse is
-    "C03:not-fifo" when two grants fall on the same instant (parameter [M] below; this is the
-    oracle's false alarm reported by trackp). *)
+    [sort_completions] only moves the give-ups of an instant before its grants (each class keeps its
+    order of emission), and reading a give-up before a grant of the same instant instead of after it
+    gives the same tracker state and no additional failure. *)
 From Coq Require Import Lia ZifyBool ZifyNat String Sorted.
 From Ldlm Require Import Model.Base Model.Err Model.Seq Model.Track Proofs.TrackPBase.
 From RecordUpdate Require Import RecordSet.
@@ -15,15 +13,15 @@ Definition dh (hs : list hold) (ws : list twaiter) (c : comp) : list hold :=
   match findw (c_wid c) ws with [] => hs | w :: _ => ef (c_at c) hs ++ new_hold w (c_at c) (c_resp c) end.
 Definition dw (ws : list twaiter) (c : comp) : list twaiter :=
   match findw (c_wid c) ws with [] => ws | _ :: _ => rmw (c_wid c) ws end.
-Definition df (cause : option err) (hs : list hold) (ws : list twaiter) (c : comp) : list string :=
+Definition df (cause : option err) (hs : list hold) (ws : list twaiter) (pend : list str) (c : comp) : list string :=
   match findw (c_wid c) ws with
   | [] => ["C03:completion-of-unknown-call"%string]
-  | w :: _ => (if is_grant (c_resp c) then grant_flags w (c_at c) hs ws else []) ++ own_flags w (c_at c) (c_resp c) cause
+  | w :: _ => (if is_grant (c_resp c) then grant_flags w (c_at c) hs ws pend else []) ++ own_flags w (c_at c) (c_resp c) cause
   end.
 
 Lemma done1_eq cfg i cause t c :
-  done1 cfg i cause t c = TState (dh (t_holds t) (t_waiters t) c) (dw (t_waiters t) c) (t_now t) (t_pending t)
-                                 (map (pair i) (df cause (t_holds t) (t_waiters t) c) ++ t_fail t).
+  done1 cfg i cause t c = TState (dh (t_holds t) (t_waiters t) c) (dw (t_waiters t) c) (t_now t) (t_pending t) (t_mem t)
+                                 (map (pair i) (df cause (t_holds t) (t_waiters t) (t_pending t) c) ++ t_fail t).
 Proof.
   unfold done1, dh, dw, df. destruct (findw (c_wid c) (t_waiters t)) as [|w rest] eqn:E.
   - rewrite wd_unknown by done. by destruct t.
@@ -44,10 +42,10 @@ Proof. unfold won, rmw. apply lfilter_comm. Qed.
 Lemma ef_new_hold w a r : ef a (new_hold w a r) = new_hold w a r.
 Proof. destruct r as [[] ? ?| |]; try done. unfold ef. simpl. by rewrite lease_alive'. Qed.
 
-Lemma cap_ok_ef w a hs : cap_ok w a (ef a hs) = cap_ok w a hs.
+Lemma cap_ok_ef w a hs pend : cap_ok w a (ef a hs) pend = cap_ok w a hs pend.
 Proof. unfold cap_ok. by rewrite ef_ef by lia. Qed.
 
-Lemma cap_ok_perm w a hs hs' : hs ≡ₚ hs' → cap_ok w a hs = cap_ok w a hs'.
+Lemma cap_ok_perm w a hs hs' pend : hs ≡ₚ hs' → cap_ok w a hs pend = cap_ok w a hs' pend.
 Proof. intros H. unfold cap_ok, on_name, ef. by rewrite (lfilter_perm _ _ _ (lfilter_perm _ _ _ H)). Qed.
 
 (** sizes of parked calls on one lock agree (true of the model's queue; needed to compare capacity checks) *)
@@ -60,45 +58,42 @@ Proof.
 Qed.
 
 Section order.
-  Context (cfg : config) (i : nat) (cause : option err) (M : Prop).
-
-  Definition Exc (x : nat * string) : Prop := M ∧ x = (i, "C03:not-fifo"%string).
+  Context (cfg : config) (i : nat) (cause : option err).
 
   Definition tle (t t' : tstate) : Prop :=
-    t_now t' = t_now t ∧ t_pending t' = t_pending t ∧ t_waiters t' = t_waiters t ∧ t_holds t ≡ₚ t_holds t' ∧
-    ∀ x, x ∈ t_fail t' → x ∈ t_fail t ∨ Exc x.
+    t_now t' = t_now t ∧ t_pending t' = t_pending t ∧ t_mem t' = t_mem t ∧ t_waiters t' = t_waiters t ∧ t_holds t ≡ₚ t_holds t' ∧
+    ∀ x, x ∈ t_fail t' → x ∈ t_fail t.
 
   Lemma tle_refl t : tle t t.
-  Proof. split_and!; try done. auto. Qed.
+  Proof. split_and!; try done. Qed.
   Lemma tle_trans t1 t2 t3 : tle t1 t2 → tle t2 t3 → tle t1 t3.
   Proof.
-    intros (? & ? & ? & Hp1 & F1) (? & ? & ? & Hp2 & F2). split_and!; try congruence.
+    intros (? & ? & ? & ? & Hp1 & F1) (? & ? & ? & ? & Hp2 & F2). split_and!; try congruence.
     - by rewrite Hp1.
-    - intros x Hx. destruct (F2 x Hx) as [?|?]; auto.
+    - auto.
   Qed.
 
-  Lemma df_perm hs hs' ws c : hs ≡ₚ hs' → df cause hs ws c = df cause hs' ws c.
+  Lemma df_perm hs hs' ws pend c : hs ≡ₚ hs' → df cause hs ws pend c = df cause hs' ws pend c.
   Proof.
     intros H. unfold df. destruct (findw _ _); [done|]. destruct (is_grant _); [|done].
-    unfold grant_flags. by rewrite (cap_ok_perm _ _ _ _ H).
+    unfold grant_flags. by rewrite (cap_ok_perm _ _ _ _ _ H).
   Qed.
   Lemma dh_perm hs hs' ws c : hs ≡ₚ hs' → dh hs ws c ≡ₚ dh hs' ws c.
   Proof. intros H. unfold dh. destruct (findw _ _); [done|]. unfold ef. by rewrite (lfilter_perm _ _ _ H). Qed.
 
   Lemma done1_mono t t' c : tle t t' → tle (done1 cfg i cause t c) (done1 cfg i cause t' c).
   Proof.
-    intros (En & Ep & Ew & Hh & Hf). rewrite !done1_eq. rewrite Ew. split_and!; simpl; try done.
+    intros (En & Ep & Em & Ew & Hh & Hf). rewrite !done1_eq. rewrite Ew, Ep. split_and!; simpl; try done.
     - by apply dh_perm.
-    - intros x. rewrite !elem_of_app, <- (df_perm _ _ _ _ Hh). intros [?|Hx]; [auto|]. destruct (Hf x Hx); auto.
+    - intros x. rewrite !elem_of_app, <- (df_perm _ _ _ _ _ Hh). intros [?|Hx]; auto.
   Qed.
 
   Lemma done_list_mono l : ∀ t t', tle t t' → tle (done_list cfg i cause l t) (done_list cfg i cause l t').
   Proof. induction l as [|c l IH]; intros t t' H; [done|]. simpl. apply IH. by apply done1_mono. Qed.
 
+  (** a grant followed by a give-up of the same instant *)
   Definition okswap (c1 c2 : comp) : Prop :=
-    c_at c1 = c_at c2 ∧ c_wid c1 ≠ c_wid c2 ∧
-    (is_grant (c_resp c1) = true ∨ is_grant (c_resp c2) = false) ∧
-    (is_grant (c_resp c1) = true → is_grant (c_resp c2) = true → M).
+    c_at c1 = c_at c2 ∧ c_wid c1 ≠ c_wid c2 ∧ is_grant (c_resp c1) = true ∧ is_grant (c_resp c2) = false.
 
   Lemma fifo_ok_rmw w wid ws : tw_id w ≠ wid → fifo_ok w ws = true → fifo_ok w (rmw wid ws) = true.
   Proof.
@@ -107,90 +102,36 @@ Section order.
     rewrite bool_decide_eq_false_2 by congruence. simpl. by apply bool_decide_eq_true.
   Qed.
 
-  Lemma on_name_new_hold_ne w w' a r : tw_name w ≠ tw_name w' → on_name (tw_name w) (new_hold w' a r) = [].
-  Proof. intros Hne. destruct r as [[] ? ?| |]; try done. unfold on_name. simpl. by rewrite bool_decide_eq_false_2. Qed.
-
-  Lemma cap_ok_app_false w a hs l : cap_ok w a hs = false → cap_ok w a (hs ++ l) = false.
-  Proof.
-    unfold cap_ok, on_name. rewrite ef_app, lfilter_app, app_length. lia.
-  Qed.
-
-  Lemma cap_ok_app_other w w' a r hs : tw_name w ≠ tw_name w' → cap_ok w a (ef a hs ++ new_hold w' a r) = cap_ok w a hs.
-  Proof.
-    intros Hne. unfold cap_ok. rewrite ef_app, ef_ef, ef_new_hold by lia. unfold on_name at 1. rewrite lfilter_app.
-    fold (on_name (tw_name w) (new_hold w' a r)). rewrite on_name_new_hold_ne by done. by rewrite app_nil_r.
-  Qed.
-
-  Lemma cap_ok_app_same w w' a k e k' e' hs : tw_name w = tw_name w' → tw_size w = tw_size w' →
-    cap_ok w a (ef a hs ++ new_hold w' a (RLock true k e)) = cap_ok w' a (ef a hs ++ new_hold w a (RLock true k' e')).
-  Proof.
-    intros En Es. unfold cap_ok. rewrite !ef_app, !ef_new_hold. unfold on_name. rewrite !lfilter_app, !app_length, En, Es. simpl.
-    rewrite !bool_decide_eq_true_2 by done. done.
-  Qed.
-
-  (** two completions of one instant, processed in the other order *)
-  Lemma done1_swap t c1 c2 : coh (t_waiters t) → okswap c1 c2 →
+  (** the give-up read first *)
+  Lemma done1_swap t c1 c2 : okswap c1 c2 →
     tle (done1 cfg i cause (done1 cfg i cause t c1) c2) (done1 cfg i cause (done1 cfg i cause t c2) c1).
   Proof.
-    intros Hcoh (Hat & Hne & Hkind & HM). rewrite !done1_eq. simpl.
-    set (hs := t_holds t). set (ws := t_waiters t).
-    assert (∀ x : nat * string, x ∈ map (pair i) (df cause (dh hs ws c2) (dw ws c2) c1) ++ map (pair i) (df cause hs ws c2) ++ t_fail t →
-            (x ∈ map (pair i) (df cause (dh hs ws c1) (dw ws c1) c2) ++ map (pair i) (df cause hs ws c1) ++ t_fail t) ∨ Exc x) as Hfl.
-    { intros x. rewrite !elem_of_app, !elem_of_list_In, !in_map_iff. setoid_rewrite <- elem_of_list_In.
-      unfold df. rewrite !findw_dw_ne by congruence. unfold dh, dw.
-      destruct (findw (c_wid c1) ws) as [|w1 r1] eqn:E1; destruct (findw (c_wid c2) ws) as [|w2 r2] eqn:E2; try tauto.
-      - destruct (findw_id _ _ _ _ E1) as [Hid1 Hw1], (findw_id _ _ _ _ E2) as [Hid2 Hw2]. rewrite Hat.
-        intros [(tg & <- & Hx)|[(tg & <- & Hx)|?]]; [| |tauto].
-        + (* a flag of c1, processed after c2 *)
-          apply elem_of_app in Hx as [Hx|Hx]; [|left; right; left; exists tg; split; [done|]; apply elem_of_app; by right].
-          destruct (is_grant (c_resp c1)) eqn:G1; [|by apply elem_of_nil in Hx].
-          unfold grant_flags in Hx. apply elem_of_app in Hx as [Hx|Hx].
-          * (* capacity *)
-            destruct (cap_ok w1 _ _) eqn:C; [by apply elem_of_nil in Hx|]. apply elem_of_list_singleton in Hx as ->.
-            destruct (decide (tw_name w1 = tw_name w2)) as [En|Hnn].
-            -- destruct (is_grant (c_resp c2)) eqn:G2.
-               ++ left. left. exists "C01:grant-over-capacity"%string. split; [done|]. apply elem_of_app. left.
-                  unfold grant_flags. apply elem_of_app. left.
-                  destruct (c_resp c1) as [[] k1 e1| |]; try done. destruct (c_resp c2) as [[] k2 e2| |]; try done.
-                  rewrite (cap_ok_app_same w2 w1 _ k1 e1 k2 e2) by (symmetry; auto).
-                  rewrite C. left.
-               ++ left. right. left. exists "C01:grant-over-capacity"%string. split; [done|]. apply elem_of_app. left.
-                  unfold grant_flags. apply elem_of_app. left.
-                  assert (new_hold w2 (c_at c2) (c_resp c2) = []) as Enh by (destruct (c_resp c2) as [[] ? ?| |]; done).
-                  rewrite Enh, app_nil_r, cap_ok_ef in C. rewrite C. left.
-            -- left. right. left. exists "C01:grant-over-capacity"%string. split; [done|]. apply elem_of_app. left.
-               unfold grant_flags. apply elem_of_app. left. rewrite cap_ok_app_other in C by done. rewrite C. left.
-          * (* queue order *)
-            destruct (fifo_ok w1 (rmw (c_wid c2) ws)) eqn:F; [by apply elem_of_nil in Hx|]. apply elem_of_list_singleton in Hx as ->.
-            destruct (is_grant (c_resp c2)) eqn:G2; [right; split; [auto|done]|].
-            left. right. left. exists "C03:not-fifo"%string. split; [done|]. apply elem_of_app. left.
-            unfold grant_flags. apply elem_of_app. right. destruct (fifo_ok w1 ws) eqn:F'; [|left].
-            apply (fifo_ok_rmw _ (c_wid c2)) in F'; congruence.
-        + (* a flag of c2, processed first *)
-          apply elem_of_app in Hx as [Hx|Hx]; [|left; left; exists tg; split; [done|]; apply elem_of_app; by right].
-          destruct (is_grant (c_resp c2)) eqn:G2; [|by apply elem_of_nil in Hx].
-          destruct Hkind as [G1|?]; [|congruence].
-          unfold grant_flags in Hx. apply elem_of_app in Hx as [Hx|Hx].
-          * destruct (cap_ok w2 _ hs) eqn:C; [by apply elem_of_nil in Hx|]. apply elem_of_list_singleton in Hx as ->.
-            left. left. exists "C01:grant-over-capacity"%string. split; [done|]. apply elem_of_app. left.
-            unfold grant_flags. apply elem_of_app. left.
-            rewrite <- cap_ok_ef in C. rewrite (cap_ok_app_false _ _ _ _ C). left.
-          * destruct (fifo_ok w2 ws); [by apply elem_of_nil in Hx|]. apply elem_of_list_singleton in Hx as ->.
-            right. split; [auto|done]. }
+    intros (Hat & Hne & G1 & G2). rewrite !done1_eq. simpl.
+    set (hs := t_holds t). set (ws := t_waiters t). set (pd := t_pending t).
+    pose proof (findw_dw_ne (c_wid c1) c2 ws Hne) as F1.
+    pose proof (findw_dw_ne (c_wid c2) c1 ws (not_eq_sym Hne)) as F2.
     split_and!; simpl; try done.
-    - pose proof (findw_dw_ne (c_wid c1) c2 ws Hne) as F1.
-      pose proof (findw_dw_ne (c_wid c2) c1 ws (not_eq_sym Hne)) as F2.
-      unfold dw in *. rewrite F1, F2.
+    - unfold dw in *. rewrite F1, F2.
       destruct (findw (c_wid c1) ws), (findw (c_wid c2) ws); try done. unfold rmw. apply lfilter_comm.
-    - pose proof (findw_dw_ne (c_wid c1) c2 ws Hne) as F1.
-      pose proof (findw_dw_ne (c_wid c2) c1 ws (not_eq_sym Hne)) as F2.
-      unfold dh. rewrite F1, F2. clear F1 F2.
+    - unfold dh. rewrite F1, F2.
       destruct (findw (c_wid c1) ws) as [|w1 r1], (findw (c_wid c2) ws) as [|w2 r2]; try done.
       rewrite !ef_app, Hat, !ef_new_hold, !ef_ef by lia. rewrite <- !app_assoc. apply Permutation_app_head, Permutation_app_comm.
+    - intros x. rewrite !elem_of_app, !elem_of_list_In, !in_map_iff. setoid_rewrite <- elem_of_list_In.
+      unfold df. rewrite F1, F2. unfold dh, dw.
+      destruct (findw (c_wid c1) ws) as [|w1 r1] eqn:E1; destruct (findw (c_wid c2) ws) as [|w2 r2] eqn:E2; try tauto.
+      destruct (findw_id _ _ _ _ E1) as [Hid1 Hw1], (findw_id _ _ _ _ E2) as [Hid2 Hw2]. rewrite G1, G2, Hat. simpl.
+      assert (new_hold w2 (c_at c2) (c_resp c2) = []) as Enh by (destruct (c_resp c2) as [[] ? ?| |]; done).
+      rewrite Enh, app_nil_r.
+      intros [(tg & <- & Hx)|[(tg & <- & Hx)|?]]; [| |tauto].
+      + apply elem_of_app in Hx as [Hx|Hx]; [|right; left; exists tg; split; [done|]; apply elem_of_app; by right].
+        right. left. exists tg. split; [done|]. apply elem_of_app. left.
+        unfold grant_flags in *. apply elem_of_app in Hx as [Hx|Hx]; apply elem_of_app; [left|right].
+        * by rewrite cap_ok_ef in Hx.
+        * destruct (fifo_ok w1 ws) eqn:F'.
+          -- apply (fifo_ok_rmw _ (c_wid c2)) in F'; [|congruence]. rewrite F' in Hx. by apply elem_of_nil in Hx.
+          -- destruct (fifo_ok w1 (rmw (c_wid c2) ws)); [by apply elem_of_nil in Hx|done].
+      + left. exists tg. done.
   Qed.
-
-  Lemma done1_coh t c : coh (t_waiters t) → coh (t_waiters (done1 cfg i cause t c)).
-  Proof. rewrite done1_eq. simpl. apply coh_dw. Qed.
 
   Inductive Reord : list comp → list comp → Prop :=
   | Reord_refl l : Reord l l
@@ -198,26 +139,41 @@ Section order.
   | Reord_swap c1 c2 l : okswap c1 c2 → Reord (c1 :: c2 :: l) (c2 :: c1 :: l)
   | Reord_trans l1 l2 l3 : Reord l1 l2 → Reord l2 l3 → Reord l1 l3.
 
-  Lemma Reord_tle l l' : Reord l l' → ∀ t, coh (t_waiters t) → tle (done_list cfg i cause l t) (done_list cfg i cause l' t).
+  Lemma Reord_tle l l' : Reord l l' → ∀ t, tle (done_list cfg i cause l t) (done_list cfg i cause l' t).
   Proof.
-    induction 1 as [l|c l l' _ IH|c1 c2 l Hok|l1 l2 l3 _ IH1 _ IH2]; intros t Hc.
+    induction 1 as [l|c l l' _ IH|c1 c2 l Hok|l1 l2 l3 _ IH1 _ IH2]; intros t.
     - apply tle_refl.
-    - simpl. apply IH. by apply done1_coh.
+    - simpl. apply IH.
     - simpl. apply done_list_mono. by apply done1_swap.
     - eapply tle_trans; eauto.
   Qed.
 
-  Lemma Reord_move c pre post : (∀ x, x ∈ pre → okswap c x) → Reord (c :: pre ++ post) (pre ++ c :: post).
+  Lemma Reord_app_l pre l l' : Reord l l' → Reord (pre ++ l) (pre ++ l').
+  Proof. intros H. induction pre as [|x pre IH]; [done|]. simpl. by apply Reord_cons. Qed.
+
+  Lemma Reord_app_r l l' r : Reord l l' → Reord (l ++ r) (l' ++ r).
   Proof.
-    induction pre as [|x pre IH]; intros H; [apply Reord_refl|]. simpl.
-    eapply Reord_trans; [apply Reord_swap; apply H; left|]. apply Reord_cons, IH. intros y ?. apply H. by right.
+    induction 1 as [l|c l l' _ IH|c1 c2 l Hok|l1 l2 l3 _ IH1 _ IH2]; simpl.
+    - apply Reord_refl.
+    - by apply Reord_cons.
+    - by apply Reord_swap.
+    - eapply Reord_trans; eauto.
+  Qed.
+
+  (** a give-up moves in front of the grants of its instant *)
+  Lemma Reord_move_left c post : (∀ x, x ∈ post → okswap x c) → Reord (post ++ [c]) (c :: post).
+  Proof.
+    induction post as [|x post IH]; intros H; [apply Reord_refl|]. simpl.
+    eapply Reord_trans; [apply Reord_cons, IH; intros; apply H; by right|]. apply Reord_swap, H. left.
   Qed.
 End order.
 
 (** ** [sort_completions] *)
 
+Definition ins_all (l acc : list comp) : list comp := fold_left (λ acc c, insert_by_time c acc) l acc.
+
 Definition sortc (cs : list comp) : list comp :=
-  fold_right insert_by_time [] (List.filter (λ c, ok_bit (snd c)) cs ++ List.filter (λ c, negb (ok_bit (snd c))) cs).
+  ins_all (List.filter (λ c, negb (ok_bit (snd c))) cs ++ List.filter (λ c, ok_bit (snd c)) cs) [].
 
 Lemma sort_completions_eq outs : sort_completions outs = sortc (comps outs).
 Proof. done. Qed.
@@ -226,8 +182,11 @@ Lemma ins_perm c l : insert_by_time c l ≡ₚ c :: l.
 Proof.
   induction l as [|x l IH]; [done|]. simpl. destruct (_ <? _); [done|]. rewrite IH. apply Permutation_swap.
 Qed.
-Lemma fold_ins_perm l acc : fold_right insert_by_time acc l ≡ₚ l ++ acc.
-Proof. induction l as [|x l IH]; [done|]. simpl. by rewrite ins_perm, IH. Qed.
+Lemma ins_all_perm l : ∀ acc, ins_all l acc ≡ₚ acc ++ l.
+Proof.
+  induction l as [|x l IH]; intros acc; simpl; [by rewrite app_nil_r|]. rewrite IH, ins_perm.
+  by rewrite (Permutation_middle acc l x).
+Qed.
 
 Lemma ins_pass c pre l : (∀ x, x ∈ pre → c_at x ≤ c_at c) → insert_by_time c (pre ++ l) = pre ++ insert_by_time c l.
 Proof.
@@ -236,12 +195,15 @@ Proof.
   destruct (Z.ltb_spec (c.1).2 (x.1).2); [lia|]. f_equal. apply IH. intros y ?. apply H. by right.
 Qed.
 
-Lemma ins_split c l : ∃ pre post, l = pre ++ post ∧ insert_by_time c l = pre ++ c :: post ∧ ∀ x, x ∈ pre → c_at x ≤ c_at c.
+Lemma ins_end c l : (∀ x, x ∈ l → c_at x ≤ c_at c) → insert_by_time c l = l ++ [c].
+Proof. intros H. rewrite <- (app_nil_r l) at 1. by rewrite ins_pass. Qed.
+
+Lemma ins_stop c pre l : (∀ x, x ∈ l → c_at c < c_at x) → insert_by_time c (pre ++ l) = insert_by_time c pre ++ l.
 Proof.
-  induction l as [|x l (pre & post & -> & E & Hp)]; [exists [], []; split_and!; try done; by intros ? ?%elem_of_nil|].
-  simpl. destruct (Z.ltb_spec (c.1).2 (x.1).2).
-  - exists [], (x :: pre ++ post). split_and!; try done. by intros ? ?%elem_of_nil.
-  - exists (x :: pre), post. split_and!; [done|by rewrite E|]. intros y [->|?]%elem_of_cons; [done|auto].
+  intros H. induction pre as [|x pre IH]; simpl.
+  - destruct l as [|y l]; [done|]. simpl. assert (c_at c < c_at y) as Hy by (apply H; left). unfold c_at in Hy.
+    destruct (Z.ltb_spec (c.1).2 (y.1).2); [done|lia].
+  - destruct (_ <? _); [done|]. simpl. by rewrite IH.
 Qed.
 
 Definition rlock (c : comp) : Prop := match c_resp c with RLock _ _ _ => True | _ => False end.
@@ -249,91 +211,128 @@ Definition rlock (c : comp) : Prop := match c_resp c with RLock _ _ _ => True | 
 Lemma rlock_ok_bit c : rlock c → ok_bit (snd c) = is_grant (c_resp c).
 Proof. unfold rlock, c_resp. destruct (c.2) as [[] ? ?| |]; done. Qed.
 
-Lemma lfilter_partition {A} (f : A → bool) l : List.filter f l ++ List.filter (λ x, negb (f x)) l ≡ₚ l.
+Notation tsorted := (StronglySorted (λ x y : comp, c_at x ≤ c_at y)).
+
+Lemma tsorted_app (l1 l2 : list comp) : tsorted (l1 ++ l2) → tsorted l1 ∧ tsorted l2 ∧ ∀ x y, x ∈ l1 → y ∈ l2 → c_at x ≤ c_at y.
+Proof.
+  induction l1 as [|a l1 IH]; simpl; intros H.
+  - split; [constructor|]. split; [done|]. by intros x y ?%elem_of_nil.
+  - apply StronglySorted_inv in H as [H Ha]. destruct (IH H) as (H1 & H2 & H3). rewrite Forall_app, !Forall_forall in Ha.
+    destruct Ha as [Ha1 Ha2]. split; [constructor; [done|by apply Forall_forall]|]. split; [done|].
+    intros x y [->|Hx]%elem_of_cons Hy; [by apply Ha2|by apply H3].
+Qed.
+
+Lemma tsorted_filter (f : comp → bool) l : tsorted l → tsorted (List.filter f l).
+Proof.
+  induction 1 as [|x l Hs IH Hx]; simpl; [constructor|]. destruct (f x); [|done]. constructor; [done|].
+  rewrite Forall_forall in *. intros y [_ Hy]%elem_of_lfilter. by apply Hx.
+Qed.
+
+(** inserting a sorted list whose elements are not before the accumulator appends it *)
+Lemma ins_all_sorted l : ∀ acc, tsorted l → (∀ x y, x ∈ acc → y ∈ l → c_at x ≤ c_at y) → ins_all l acc = acc ++ l.
+Proof.
+  induction l as [|c l IH]; intros acc Hs Hle; simpl; [by rewrite app_nil_r|].
+  apply StronglySorted_inv in Hs as [Hs Hc]. rewrite Forall_forall in Hc.
+  rewrite ins_end by (intros x Hx; apply Hle; [done|left]). rewrite IH; [by rewrite <- app_assoc|done|].
+  intros x y [Hx| ->%elem_of_list_singleton]%elem_of_app Hy; [apply Hle; [done|by right]|by apply Hc].
+Qed.
+
+(** the effect of one more (latest) give-up on the sorted list: it lands in front of the grants of its instant *)
+Lemma ins_all_giveup c grs : ∀ p q, tsorted grs → (∀ g, g ∈ grs → c_at g ≤ c_at c) →
+  (∀ x, x ∈ p → c_at x ≤ c_at c) → tsorted p → (∀ x, x ∈ q → c_at x = c_at c) →
+  ∃ p' q', ins_all grs (p ++ c :: q) = p' ++ c :: q' ∧ ins_all grs (p ++ q) = p' ++ q' ∧
+           (∀ x, x ∈ q' → x ∈ q ∨ x ∈ grs) ∧ (∀ x, x ∈ q' → c_at x = c_at c).
+Proof.
+  induction grs as [|g grs IH]; intros p q Hs Hg Hp Hps Hq; simpl.
+  - exists p, q. split_and!; auto.
+  - apply StronglySorted_inv in Hs as [Hs Hgs]. rewrite Forall_forall in Hgs.
+    assert (c_at g ≤ c_at c) as Hgc by (apply Hg; left).
+    destruct (decide (c_at g = c_at c)) as [Eg|Ng].
+    + (* same instant: after everything *)
+      rewrite (ins_end g (p ++ c :: q)), (ins_end g (p ++ q)).
+      2:{ intros x [Hx|Hx]%elem_of_app; [specialize (Hp x Hx)|specialize (Hq x Hx)]; lia. }
+      2:{ intros x [Hx|[->|Hx]%elem_of_cons]%elem_of_app; [specialize (Hp x Hx)|..|specialize (Hq x Hx)]; lia. }
+      rewrite <- !app_assoc. simpl.
+      destruct (IH p (q ++ [g]) Hs) as (p' & q' & E1 & E2 & Hsub & Hq'); try done.
+      { intros; apply Hg; by right. }
+      { intros x [Hx| ->%elem_of_list_singleton]%elem_of_app; [by apply Hq|done]. }
+      exists p', q'. split_and!; try done. intros x Hx. destruct (Hsub x Hx) as [[?| ->%elem_of_list_singleton]%elem_of_app|?]; auto.
+      * right. left.
+      * right. by right.
+    + (* an earlier instant: lands inside [p] *)
+      assert (c_at g < c_at c) as Hlt by lia.
+      rewrite (ins_stop g p (c :: q)), (ins_stop g p q).
+      2:{ intros x Hx. specialize (Hq x Hx). lia. }
+      2:{ intros x [->|Hx]%elem_of_cons; [done|]. specialize (Hq x Hx). lia. }
+      destruct (IH (insert_by_time g p) q Hs) as (p' & q' & E1 & E2 & Hsub & Hq'); try done.
+      { intros; apply Hg; by right. }
+      { intros x Hx. rewrite ins_perm in Hx. apply elem_of_cons in Hx as [->|Hx]; [lia|by apply Hp]. }
+      { clear -Hps. induction Hps as [|x p Hs IH Hx]; simpl; [repeat constructor|].
+        destruct (Z.ltb_spec (g.1).2 (x.1).2).
+        - constructor; [by constructor|]. constructor; [unfold c_at; lia|]. rewrite Forall_forall in *. intros y Hy. specialize (Hx y Hy). unfold c_at in *. lia.
+        - constructor; [done|]. rewrite Forall_forall in *. intros y Hy. rewrite ins_perm in Hy. apply elem_of_cons in Hy as [->|Hy]; [done|by apply Hx]. }
+      exists p', q'. split_and!; try done. intros x Hx. destruct (Hsub x Hx); auto. right. by right.
+Qed.
+
+Lemma lfilter_partition {A} (f : A → bool) l : List.filter (λ x, negb (f x)) l ++ List.filter f l ≡ₚ l.
 Proof.
   induction l as [|a l IH]; simpl; [done|]. destruct (f a); simpl.
-  - by rewrite IH.
   - rewrite <- Permutation_middle. by rewrite IH.
+  - by rewrite IH.
 Qed.
 
 Lemma sortc_perm cs : sortc cs ≡ₚ cs.
-Proof. unfold sortc. rewrite fold_ins_perm, app_nil_r. apply lfilter_partition. Qed.
+Proof. unfold sortc. rewrite ins_all_perm. simpl. apply lfilter_partition. Qed.
 
-Lemma fold_ins_giveup c pre post grs :
-  (∀ x, x ∈ pre → c_at x ≤ c_at c) → (∀ g, g ∈ grs → c_at c ≤ c_at g) →
-  ∃ P, fold_right insert_by_time (pre ++ c :: post) grs = pre ++ c :: P ∧
-       fold_right insert_by_time (pre ++ post) grs = pre ++ P.
+Lemma sortc_Reord cs :
+  tsorted cs → NoDup (c_wid <$> cs) → (∀ c, c ∈ cs → rlock c) → Reord cs (sortc cs).
 Proof.
-  intros Hp. induction grs as [|g grs IH]; intros Hg; [by exists post|].
-  destruct IH as (P & E1 & E2); [intros; apply Hg; by right|]. simpl. rewrite E1, E2.
-  assert (c_at c ≤ c_at g) as Hcg by (apply Hg; left).
-  assert (∀ x, x ∈ pre → c_at x ≤ c_at g) as Hpg by (intros x Hx; specialize (Hp x Hx); lia).
-  exists (insert_by_time g P). split.
-  - rewrite (ins_pass g pre (c :: P)) by done. f_equal. simpl. unfold c_at in Hcg.
-    destruct (Z.ltb_spec (g.1).2 (c.1).2); [lia|]. done.
-  - by apply ins_pass.
+  induction cs as [|c cs IH] using rev_ind; intros Hs Hnd Hrl; [apply Reord_refl|].
+  apply tsorted_app in Hs as (Hs & _ & Hle).
+  rewrite fmap_app in Hnd. apply NoDup_app in Hnd as (Hnd & Hdis & _).
+  assert (∀ x, x ∈ cs → c_wid x ≠ c_wid c) as Hidne.
+  { intros x Hx E. apply (Hdis (c_wid x)); [apply elem_of_list_fmap; eauto|]. rewrite E. simpl. left. }
+  assert (∀ x, x ∈ cs → c_at x ≤ c_at c) as Hmax by (intros x Hx; apply Hle; [done|left]).
+  specialize (IH Hs Hnd ltac:(intros; apply Hrl, elem_of_app; by left)).
+  eapply Reord_trans; [apply Reord_app_r, IH|].
+  set (gus := List.filter (λ c, negb (ok_bit c.2)) cs). set (grs := List.filter (λ c, ok_bit c.2) cs).
+  assert (tsorted gus ∧ tsorted grs) as [Hsu Hsg] by (split; by apply tsorted_filter).
+  assert (sortc cs = ins_all grs gus) as Es.
+  { unfold sortc. unfold ins_all at 1. rewrite fold_left_app. change (ins_all grs (ins_all gus []) = ins_all grs gus). rewrite (ins_all_sorted gus []); [done|done|]. by intros x y ?%elem_of_nil. }
+  assert (rlock c) as Hrc by (apply Hrl, elem_of_app; right; left).
+  destruct (ok_bit c.2) eqn:Eb.
+  - (* the latest completion is a grant: it stays last *)
+    assert (sortc (cs ++ [c]) = sortc cs ++ [c]) as ->; [|apply Reord_refl].
+    unfold sortc. rewrite !lfilter_app. simpl. rewrite Eb. simpl. rewrite app_nil_r, app_assoc.
+    unfold ins_all at 1. rewrite fold_left_app. simpl. change (insert_by_time c (ins_all (gus ++ grs) []) = ins_all (gus ++ grs) [] ++ [c]). apply ins_end.
+    intros x Hx. apply Hmax. rewrite ins_all_perm in Hx. simpl in Hx.
+    apply elem_of_app in Hx as [Hx|Hx]; apply elem_of_lfilter in Hx; tauto.
+  - (* a give-up: in front of the grants of its instant *)
+    assert (sortc (cs ++ [c]) = ins_all grs (gus ++ [c])) as ->.
+    { unfold sortc. rewrite !lfilter_app. simpl. rewrite Eb. simpl. rewrite app_nil_r. unfold ins_all at 1. rewrite fold_left_app.
+      change (ins_all grs (ins_all (gus ++ [c]) []) = ins_all grs (gus ++ [c])).
+      rewrite (ins_all_sorted (gus ++ [c]) []); [done| |by intros x y ?%elem_of_nil].
+      clear -Hsu Hmax. assert (∀ x, x ∈ gus → c_at x ≤ c_at c) as H by (intros x [_ ?]%elem_of_lfilter; auto).
+      induction Hsu as [|x l Hs IH Hx]; simpl; [repeat constructor|]. constructor; [apply IH; intros; apply H; by right|].
+      apply Forall_app. split; [done|]. constructor; [apply H; left|constructor]. }
+    rewrite Es.
+    destruct (ins_all_giveup c grs gus [] Hsg) as (p' & q' & E1 & E2 & Hsub & Hq').
+    { intros g [_ ?]%elem_of_lfilter. auto. }
+    { intros x [_ ?]%elem_of_lfilter. auto. }
+    { done. }
+    { by intros x ?%elem_of_nil. }
+    rewrite app_nil_r in E2. rewrite E1, E2. rewrite <- app_assoc. apply Reord_app_l, Reord_move_left.
+    intros x Hx. destruct (Hsub x Hx) as [[]%elem_of_nil|Hxg]. apply elem_of_lfilter in Hxg as [Hb Hxc].
+    split_and!; [by apply Hq'|by apply Hidne| |].
+    + rewrite <- rlock_ok_bit; [done|]. apply Hrl, elem_of_app. by left.
+    + rewrite <- rlock_ok_bit by done. done.
 Qed.
-
-Section sort.
-  Context (M : Prop).
-
-  Lemma sortc_Reord cs :
-    StronglySorted (λ x y, c_at x ≤ c_at y) cs → NoDup (c_wid <$> cs) → (∀ c, c ∈ cs → rlock c) →
-    (∀ c1 c2, c1 ∈ cs → c2 ∈ cs → c_wid c1 ≠ c_wid c2 → c_at c1 = c_at c2 →
-       is_grant (c_resp c1) = true → is_grant (c_resp c2) = true → M) →
-    Reord M cs (sortc cs).
-  Proof.
-    induction cs as [|c cs IH]; intros Hs Hnd Hrl HM; [apply Reord_refl|].
-    apply StronglySorted_inv in Hs as [Hs Hc]. rewrite Forall_forall in Hc.
-    rewrite fmap_cons in Hnd. apply NoDup_cons in Hnd as [Hcn Hnd].
-    assert (∀ x, x ∈ cs → c_wid c ≠ c_wid x) as Hidne.
-    { intros x Hx E. apply Hcn. rewrite E. apply elem_of_list_fmap. eauto. }
-    specialize (IH Hs Hnd). eapply Reord_trans.
-    { apply Reord_cons, IH; [intros; apply Hrl; by right|]. intros c1 c2 ? ?. apply HM; by right. }
-    pose proof (sortc_perm cs) as Hperm.
-    assert (rlock c) as Hrc by (apply Hrl; left).
-    destruct (ok_bit c.2) eqn:Eb.
-    - (* a grant: inserted after everything of its instant *)
-      assert (sortc (c :: cs) = insert_by_time c (sortc cs)) as ->.
-      { unfold sortc. simpl. by rewrite Eb. }
-      destruct (ins_split c (sortc cs)) as (pre & post & E1 & E2 & Hpre). rewrite E2, E1.
-      apply Reord_move. intros x Hx.
-      assert (x ∈ cs) as Hxc by (rewrite <- Hperm, E1; apply elem_of_app; by left).
-      rewrite rlock_ok_bit in Eb by done.
-      split_and!; [specialize (Hc x Hxc); specialize (Hpre x Hx); lia|by apply Hidne|by left|].
-      intros _ Gx. eapply (HM c x); [left|by right|by apply Hidne| |done|done].
-      specialize (Hc x Hxc); specialize (Hpre x Hx); lia.
-    - (* a give-up: ends up after the give-ups of its instant, before the grants *)
-      set (grs := List.filter (λ c, ok_bit c.2) cs). set (gus := List.filter (λ c, negb (ok_bit c.2)) cs).
-      assert (sortc (c :: cs) = fold_right insert_by_time (insert_by_time c (fold_right insert_by_time [] gus)) grs) as ->.
-      { unfold sortc. simpl. rewrite Eb. simpl. by rewrite fold_right_app. }
-      assert (sortc cs = fold_right insert_by_time (fold_right insert_by_time [] gus) grs) as Es.
-      { unfold sortc. by rewrite fold_right_app. }
-      destruct (ins_split c (fold_right insert_by_time [] gus)) as (pre & post & E1 & E2 & Hpre).
-      assert (∀ x, x ∈ pre → x ∈ gus) as Hpg.
-      { intros x Hx. rewrite <- (app_nil_r gus), <- fold_ins_perm, E1. apply elem_of_app. by left. }
-      destruct (fold_ins_giveup c pre post grs Hpre) as (P & F1 & F2).
-      { intros g [_ Hg]%elem_of_lfilter. by apply Hc. }
-      rewrite E2, F1. rewrite Es, E1, F2. apply Reord_move. intros x Hx.
-      pose proof (Hpg x Hx) as Hx'. apply elem_of_lfilter in Hx' as [Hxb Hxc].
-      assert (is_grant (c_resp x) = false) as Gx.
-      { rewrite <- rlock_ok_bit by (apply Hrl; by right). by destruct (ok_bit x.2). }
-      split_and!; [specialize (Hc x Hxc); specialize (Hpre x Hx); lia|by apply Hidne|by right|].
-      intros _ ?. congruence.
-  Qed.
-End sort.
 
 (** ** The transfer: what holds of the tracker after the completions in emission order holds after [t_completions] *)
 
-Definition multi_grant (cs : list comp) : Prop :=
-  ∃ c1 c2, c1 ∈ cs ∧ c2 ∈ cs ∧ c_wid c1 ≠ c_wid c2 ∧ c_at c1 = c_at c2 ∧
-           is_grant (c_resp c1) = true ∧ is_grant (c_resp c2) = true.
-
 Lemma t_completions_transfer cfg i cause outs t :
-  StronglySorted (λ x y, c_at x ≤ c_at y) (comps outs) → NoDup (c_wid <$> comps outs) →
-  (∀ c, c ∈ comps outs → rlock c) → coh (t_waiters t) →
-  tle i (multi_grant (comps outs)) (done_list cfg i cause (comps outs) t) (t_completions cfg i cause outs t).
+  tsorted (comps outs) → NoDup (c_wid <$> comps outs) → (∀ c, c ∈ comps outs → rlock c) →
+  tle (done_list cfg i cause (comps outs) t) (t_completions cfg i cause outs t).
 Proof.
-  intros Hs Hnd Hrl Hcoh. rewrite t_completions_eq, sort_completions_eq. apply Reord_tle; [|done].
-  apply sortc_Reord; try done. intros c1 c2 ? ? ? ? ? ?. exists c1, c2. done.
+  intros Hs Hnd Hrl. rewrite t_completions_eq, sort_completions_eq. apply Reord_tle. by apply sortc_Reord.
 Qed.
